@@ -204,6 +204,12 @@ func c08CheckList(c *Case, list []c08Entry, draws []float64) (*c08Obs, []Violati
 		if x.Prob > 0 {
 			wantP = c08Probs[x.Prob]
 		}
+		if _, has := b["applyProbability"].(float64); !has {
+			vs = append(vs, viol(c, "C08/echo", "bias entry %d carries no applyProbability (keys %v), request had %v", i, mapKeys(b), wantP))
+		}
+		if _, has := b["name"].(string); !has {
+			vs = append(vs, viol(c, "C08/echo", "bias entry %d carries no name (keys %v)", i, mapKeys(b)))
+		}
 		if asS(b["name"]) != names[x.Kind] || asF(b["applyProbability"]) != wantP {
 			vs = append(vs, viol(c, "C08/echo", "bias entry %d echoes name=%v applyProbability=%v, request had %s / %v", i, b["name"], b["applyProbability"], names[x.Kind], wantP))
 		}
